@@ -12,7 +12,8 @@ RULE = ('E4 fault enumerator over K_rep (85 reference-encoded frames of all '
         'byte strings of length <= 3 over a 28-symbol alphabet and of length '
         '4 over 12 symbols (thorough: length <= 5 over all 28) '
         'inside 5 valid envelopes; header-shape product; pairs of '
-        'corruptions on structural positions (thorough). A case is one input '
+        'corruptions on structural positions (thorough); truncations, short '
+        'strings and header shapes again with debug logging switched on. A case is one input '
         'byte string; distinct by content; non-trivial = the decoder got '
         'past the envelope checks (returned a frame or failed inside a '
         'content decoder).')
@@ -33,7 +34,11 @@ SELFTEST_TASK = ('truncate', 0)
 
 
 def tasks(tier, seed):
-    return fuzzspace.tasks(tier, seed)
+    base = fuzzspace.tasks(tier, seed)
+    # truncations, short strings and header shapes again with debug logging on
+    debug = [('debug-logging',) + t for t in base
+             if t[0] in ('truncate', 'short', 'shapes', 'nested-short')]
+    return base + debug
 
 
 def check_one(ctx, data, label):
@@ -67,15 +72,26 @@ def check_one(ctx, data, label):
 
 
 def run(task, ctx):
+    if task[0] == 'debug-logging':
+        # process environment: the same inputs with debug logging on
+        with lib.debug_logging():
+            run_inputs(task[1:], ctx, ' [debug logging on]')
+    else:
+        run_inputs(task, ctx, '')
+
+
+def run_inputs(task, ctx, env):
     ctx.rearm(4)      # short watchdog: inputs that hang are reported singly
     for label, data in fuzzspace.inputs(task, ctx.tier, ctx.seed):
+        label += env
         if ctx.outcomes.get('hang', 0) >= 3:
             ctx.cap('a task was abandoned after 3 non-terminating inputs')
             break
         deep = check_one(ctx, data, label)
         if ctx.outcomes.get('hang'):
             ctx.rearm(4)
-        ctx.case(data, deep, sample=lambda: {'label': label,
+        ctx.case((data, env) if env else data, deep,
+                 sample=lambda: {'label': label,
                                              'input': data[:48].hex(),
                                              'len': len(data)})
         ctx.calls()
@@ -83,8 +99,11 @@ def run(task, ctx):
 
 
 def replay(case, ctx):
+    import contextlib
+    env = lib.debug_logging() if '[debug logging on]' in case.get(
+        'label', '') else contextlib.nullcontext()
     try:
-        with runner.guard(20):
+        with env, runner.guard(20):
             check_one(ctx, bytes.fromhex(case['hex']), case.get('label', ''))
     except runner.Hang:
         ctx.violation('escape|hang', 'decoding did not terminate', case,
